@@ -282,6 +282,19 @@ def h_mismatch(ctx, what):
         e, u = call(TransferFrame.unpack, raw, FrameType.VARIABLE, VarFrameProperties(True, False, 0, insert_zone_len=izs))
         ctx.holds("managed sizes leaving no room for a data field raise UslpInvalidRawPacketOrFrameLen",
                   isinstance(e, ud.UslpInvalidRawPacketOrFrameLen), exc_name(e))
+    elif what in ("no-room-fecf", "no-room-ocf-fecf"):
+        ocf = 1 if "ocf" in what else 0
+        fr, ref, info = build_frame(ctx, 7, "variable", 0, 2, ocf, 0, 3)
+        raw = fr.pack(frame_type=FrameType.VARIABLE)
+        # the frame has no insert zone; quoting one whose size uses up the whole data field (4 octets) or more leaves no data field
+        izs = ctx.int("iz_size", 4, 12)
+        e, u = call(TransferFrame.unpack, raw, FrameType.VARIABLE, VarFrameProperties(True, True, 0, insert_zone_len=izs, fecf_len=2))
+        ctx.holds("managed sizes leaving no room for a data field raise UslpInvalidRawPacketOrFrameLen (frame with OCF/FECF)",
+                  isinstance(e, ud.UslpInvalidRawPacketOrFrameLen), exc_name(e) if e is not None else "accepted")
+        fe = ctx.int("fecf_size", 6 if not ocf else 6, 14)
+        e, u = call(TransferFrame.unpack, raw, FrameType.VARIABLE, VarFrameProperties(False, True, 0, fecf_len=fe))
+        ctx.holds("an FECF size that uses up the data field raises UslpInvalidRawPacketOrFrameLen",
+                  isinstance(e, ud.UslpInvalidRawPacketOrFrameLen), exc_name(e) if e is not None else "accepted")
     elif what in ("variable-raw-short", "truncated-raw-short"):
         kind = "variable" if what.startswith("variable") else "truncated"
         fr, ref, info = build_frame(ctx, 7, kind, 0, 2, 1 if kind == "variable" else 0, 0, 2)
@@ -325,6 +338,6 @@ def cases(tier):
     cs.append(Case("frame-twin", "frame", h_frame, dict(rule=0, kind="fixed", iz=0, fecf=0, ocf=0, vcf=0, n=1, twin=True), expect_violation=True,
                    bounds="reachability twin"))
     for what in ("fixed-with-vp-rule", "variable-with-fp-rule", "truncated-with-fixed", "fixed-len-differs", "fixed-raw-short", "fixed-len-larger-with-tail", "version",
-                 "no-room", "variable-raw-short", "truncated-raw-short"):
+                 "no-room", "no-room-fecf", "no-room-ocf-fecf", "variable-raw-short", "truncated-raw-short"):
         cs.append(Case("mismatch-" + what, "mismatch", h_mismatch, dict(what=what), bounds="decoder-visible mismatch: " + what))
     return cs
